@@ -50,6 +50,9 @@ func (f *Frame) callCommon(c *ssa.CallCommon, args []*Value, fnVal *Value, instr
 	}
 	// dynamic call through a function value
 	if p, ok := c.Value.(*ssa.Parameter); ok {
+		if f.top && !f.dry && f.fc != nil && len(f.fc.Asserts) > 0 {
+			f.siteAsserts(p.Name(), pos) // `assert before.<param>:` at a call through a function-typed parameter
+		}
 		key := e.qual(f.fn) + ":" + p.Name()
 		if fc := e.ct.Funcs[key]; fc != nil {
 			return f.applyContract(fc, key, nil, c.Signature(), args, nil, pos)
